@@ -152,6 +152,7 @@ def procCase (inp impl : String) : CaseOut :=
           (if tr.contains (.ev .maxRestarts) then "FAIL:C05+C06 a panic escaped the actor after the restart budget was exhausted"
            else "FAIL:C05 a panic escaped the actor")
         else if !it.flags.isEmpty then s!"FAIL:C07 malformed or flagged token {it.flags.headD ""}"
+        else if !noReopen tr then "FAIL:C02+C04 the inbox was re-opened after it had been stopped (a second worker can run: mutual exclusion is lost)"
         else if !lifecycleOK tr then "FAIL:C04 life-cycle shape violated (Initialized, Started, messages, one final Stopped per incarnation)"
         else if !allWrapped mw tr then "FAIL:C13 a delivery bypassed (part of) the middleware chain"
         else if !replayPrefixOK batches tr then s!"FAIL:C05 user deliveries {repr (userRecvs tr)} are not a prefix of the history (lost, duplicated, reordered or wrong sender)"
